@@ -15,7 +15,7 @@
 (* text that is string-equal to the records s..e-1 of the observed stream  *)
 (* to the pair (s, e) and ships anything else verbatim in raw (s = 0).     *)
 (***************************************************************************)
-EXTENDS JasmPattern, Json, IOUtils
+EXTENDS JasmKnown, Json, IOUtils
 S == INSTANCE JasmScan WITH n <- 0, spans <- {}, firstOnly <- FALSE,
                             pos <- 0, reported <- <<>>, done <- FALSE
 
@@ -54,7 +54,11 @@ Check(c) ==
          ELSE IF \E b \in DOMAIN c.bools : c.bools[b] # (all # <<>>) THEN "rej:C12_Bool"
          ELSE IF all # <<>> THEN "ok:F" ELSE "ok:N"
 
+\* a rejection carries the tags of the known-finding classes the case belongs to
+Verdict(c) == LET v == Check(c) IN
+              IF SubSeq(v, 1, 3) = "rej" THEN v \o Tags(Pats[c.p], Lsts[c.l]) ELSE v
+
 Init == idx \in DOMAIN Cases /\ verdict = "?"
-Next == verdict = "?" /\ verdict' = Check(Cases[idx]) /\ UNCHANGED idx
+Next == verdict = "?" /\ verdict' = Verdict(Cases[idx]) /\ UNCHANGED idx
 Spec == Init /\ [][Next]_vars
 =============================================================================
